@@ -185,3 +185,60 @@ end Examples
 
 end C01
 end Mc
+
+namespace Mc
+namespace C01
+open Api C05
+
+/-- a child without finalizers is gone after the delete `ManageChildren` sends for it -/
+theorem delete_live_gone (s : State) (t : Target) (obj : J) (d : ResDef) (hd : s.defOf t = some d) (hf : s.find t = some obj)
+    (hu : mstr obj "uid" ≠ "") (hfin : (finalizersRaw obj).isEmpty = true) :
+    (s.request .delete t .null (deleteOpts (getUID obj))).1.ok = true ∧ (s.request .delete t .null (deleteOpts (getUID obj))).2.find t = none := by
+  have hguid : getUID obj = mstr obj "uid" := (C02.mstr_eq_strAt obj "uid").symm
+  have hp : precondition (deleteOpts (getUID obj)) "uid" = some (mstr obj "uid") := by
+    rw [hguid]; exact C02.precondition_deleteOpts _ hu
+  have hp2 : precondition (deleteOpts (getUID obj)) "resourceVersion" = none := by
+    simp [precondition, deleteOpts, J.fields, lookup]
+  have hfind := request_find s .delete t .null (deleteOpts (getUID obj)) t
+  rw [hfind, if_pos rfl]
+  simp only [State.request, hd, hf, handle, Api.delete, preFails, hp, hp2]
+  simp [hfin, Out.ok]
+
+/-- **C01, Recreate path, one child**: the observed child differs, the strategy says delete-and-recreate, the child has no
+    finalizers; nobody else writes.  Sync 1 deletes it, sync 2 (cache: gone) creates it from the desired object, and for
+    sync 3 (cache: the stored object) the decision is "nothing to do". -/
+theorem C01_recreate_child_converges (hook : String → J → Resp) (mks sys : List String) (method : String) (parentRef : OwnerRef) (info : KindInfo)
+    (obs : J) (ds dm : KVs) (d : ResDef) (s : State)
+    (ht : tgtOf info obs = tgtOf info (.obj ds))
+    (hd : s.defOf (tgtOf info (.obj ds)) = some d) (hfind : s.find (tgtOf info (.obj ds)) = some obs)
+    (hu : mstr obs "uid" ≠ "") (hfin : (finalizersRaw obs).isEmpty = true)
+    (hact : updateAct mks sys method obs (.obj ds) = .delete (getUID obs))
+    (hwf : (createBody parentRef (.obj ds)).isNull = false ∧ (getName (.obj ds) == "") = false ∧ nControllerRefs (createBody parentRef (.obj ds)) ≤ 1)
+    (hplain : PlainChild d (tgtOf info (.obj ds)) ds dm) (hh : hypJ mks (.obj ds) = true) :
+    let t := tgtOf info (.obj ds)
+    let s1 := (Prog.runT (W hook) (childStep mks sys method t parentRef (some obs) (.obj ds)) s).2
+    let s2 := (Prog.runT (W hook) (childStep mks sys method t parentRef none (.obj ds)) s1).2
+    s1.find t = none ∧
+    (∃ f, s2.find t = some (created d t (createBody parentRef (.obj ds)) f false)) ∧
+    ∀ o, s2.find t = some o → childStep mks sys method t parentRef (some o) (.obj ds) = .ret none := by
+  intro t s1 s2
+  have hgone := delete_live_gone s t obs d hd hfind hu hfin
+  have hs1 : s1 = (s.request .delete t .null (deleteOpts (getUID obs))).2 := by
+    show (Prog.runT (W hook) (childStep mks sys method t parentRef (some obs) (.obj ds)) s).2 = _
+    simp only [childStep, hact, Prog.runT, W, worldStep]
+  have h1 : s1.find t = none := by rw [hs1]; exact hgone.2
+  have hd1 : s1.defOf t = some d := by rw [hs1, request_defOf]; exact hd
+  have hok := create_free s1 t (createBody parentRef (.obj ds)) d hd1 h1 hwf.1 (by show ((tgtOf info (.obj ds)).name == "") = false; simpa [tgtOf, targetOf] using hwf.2.1) hwf.2.2
+  have hpost := request_create_post s1 t (createBody parentRef (.obj ds)) d hd1 hok
+  have hs2 : s2 = (s1.request .create t (createBody parentRef (.obj ds)) .null).2 := by
+    show (Prog.runT (W hook) (childStep mks sys method t parentRef none (.obj ds)) s1).2 = _
+    simp only [childStep, Prog.runT, W, worldStep]
+  refine ⟨h1, ⟨s1.fresh, by rw [hs2]; exact hpost⟩, ?_⟩
+  intro o ho
+  rw [hs2, hpost] at ho
+  cases ho
+  simp only [childStep]
+  rw [C01_created_child_is_settled mks sys method parentRef d t ds dm s1.fresh hplain hh]
+
+end C01
+end Mc
